@@ -21,6 +21,7 @@ EXTENDS Integers, Sequences, FiniteSets, TLC
 CONSTANTS NRows,         \* rows of the frame
           KeyVals,       \* values of the first partition column (NULLK = missing)
           KeyVals2,      \* values of the second partition column ({NoCol} = only one column)
+          KeyVals3,      \* values of the third partition column ({NoCol} = at most two columns)
           Offsets,       \* set of row-group offset lists (sequences of 0-based starts)
           IndexKinds     \* row labels of the frame: "range" | "repeated" (labels occur twice) | "shuffled"; with
                          \* write_index=False they are not stored and must not influence which row goes where
@@ -28,18 +29,18 @@ CONSTANTS NRows,         \* rows of the frame
 NULLK == -1
 NoCol == -9
 
-VARIABLES frame,   \* row -> [k1, k2]
+VARIABLES frame,   \* row -> [k1, k2, k3]
           offs, pc, files, chunk, ixk
 vars == <<frame, offs, pc, files, chunk, ixk>>
 
-Frames == [1..NRows -> [k1 : KeyVals, k2 : KeyVals2]]
+Frames == [1..NRows -> [k1 : KeyVals, k2 : KeyVals2, k3 : KeyVals3]]
 Init == /\ frame \in Frames /\ offs \in Offsets /\ pc = "chunks" /\ files = {} /\ chunk = 1 /\ ixk \in IndexKinds
 
 RowsOfChunk(c) == LET a == offs[c] + 1
                       b == IF c < Len(offs) THEN offs[c + 1] ELSE NRows
                   IN {r \in a..b : r <= NRows}
-KeyOf(r) == <<frame[r].k1, frame[r].k2>>
-HasNull(r) == frame[r].k1 = NULLK \/ frame[r].k2 = NULLK
+KeyOf(r) == <<frame[r].k1, frame[r].k2, frame[r].k3>>
+HasNull(r) == frame[r].k1 = NULLK \/ frame[r].k2 = NULLK \/ frame[r].k3 = NULLK
 
 (* one chunk: one part file per key tuple present among its rows with non-null keys *)
 WriteChunk ==
